@@ -37,7 +37,7 @@ def cross_part(ctx, proof_broken=None, driver=None):
     iters = 80 if quick else 200
     cases = list(pe.corpus("C14x")) + pe.generate(ctx.seed, "cross-cycles", ncases, "quick" if quick else "thorough", prefix="x")
     spec = pe.specification(cases, driver)
-    out_root = os.path.join(common.BUILD, "par-traces", f"C14x-{ctx.seed}")
+    out_root = os.path.join(common.BUILD, "par-traces", f"C14x-{ctx.seed}-{os.getpid()}")
     shutil.rmtree(out_root, ignore_errors=True)
     os.makedirs(out_root)
     res, tdirs = parcheck.explore(ctx, cases, harness, ["os"], iters, out_root, trace_cap=6 if quick else 8, std=True)
